@@ -44,14 +44,16 @@ def opOfCall : String → Option Model.C20Log.Op
   | _ => none
 
 /-- `Log` performs get, render, lock, write, unlock, put in the order of the model's `goodProg` — in particular
-`Pool.Put` comes after `Write` — the bytes handed to the writer are taken from the buffer inside the `Write`
-call itself (no alias taken earlier), nothing is deferred or spawned. This is the hypothesis of
+`Pool.Put` comes after `Write` — the bytes handed to the writer are the result of `Bytes()` of the buffer, taken in the
+`Write` call itself or earlier with nothing in between that could change or give away the buffer (no `Reset`,
+render, `Pool.Put`, `Pool.Get` between the `Bytes()` and the `Write`; events in evaluation order, unexported helpers
+and methods followed with their parameters bound to the arguments), nothing is deferred or spawned. This is the hypothesis of
 `log_lines_intact_any_schedule`.
 Excludes: handing the pooled buffer back before the line is written (seeded change m4), writing outside the
 mutex, an asynchronous write: orders under concurrency that a stream can only hit by luck. -/
 theorem log_call_order_pinned :
     Generated.C20.logCalls.filterMap opOfCall = Model.C20Log.goodProg ∧
-    Generated.C20.logWriteArg = "Bytes() of a buffer, evaluated in the call" ∧
+    Generated.C20.logWriteArg = "Bytes() of a buffer, untouched until the Write" ∧
     Generated.C20.logUsesDeferOrGo = false := by decide
 
 /-- The hand-written formatters (`atoi`, `hostport`, `lex`, `i32toa`, `uint16base16`, `uuid.ToString`) assign to
